@@ -173,10 +173,14 @@ func (p *Validator) validateBuffer(buf []byte, last bool) error {
 				continue
 			}
 		case numComma:
-			if 0 < len(p.stack) && p.stack[len(p.stack)-1] == '{' {
-				p.mode = keyMap
+			if 0 < len(p.stack) {
+				if p.stack[len(p.stack)-1] == '{' {
+					p.mode = keyMap
+				} else {
+					p.mode = commaMap
+				}
 			} else {
-				p.mode = commaMap
+				return p.newError(off, "unexpected comma")
 			}
 		case strSlash:
 			p.mode = escMap
